@@ -353,13 +353,14 @@ def extend_operators(ndim, *ops):
     """
     shapes = [get_shape(op)[:-ndim] for op in ops]
     shape = broadcast_shapes(*shapes, append=True)
-    ndim = len(shape)
+    nbatch = len(shape)
     extended = []
     for op in ops:
         if op is None:
             extended.append(None)
         else:
-            dims = tuple(range(op.ndim - ndim, ndim))
+            # append the missing batch axes after the operator's own batch axes
+            dims = tuple(range(op.ndim - ndim, nbatch))
             extended.append(expand_dims(op, dims))
     return extended
 
